@@ -14,11 +14,11 @@
 (***************************************************************************)
 EXTENDS Naturals, Sequences, TLC
 V == {"null", "true", "false", "i0", "i1", "im1", "f10", "f15", "sabc", "s1", "s15", "strue", "sTRUE", "sdate", "sdt", "suuid", "sNone",
-      "arr", "obj", "sa", "szzz", "squote", "i2", "i7"}
-JT(v) == CASE v = "null" -> "null" [] v \in {"true", "false"} -> "bool" [] v \in {"i0", "i1", "im1", "i2", "i7"} -> "int"
+      "arr", "obj", "sa", "szzz", "squote", "i2", "i7", "ibig", "imax"}       \* ibig = 2^53+1, imax = 2^63-1: integers a double cannot hold
+JT(v) == CASE v = "null" -> "null" [] v \in {"true", "false"} -> "bool" [] v \in {"i0", "i1", "im1", "i2", "i7", "ibig", "imax"} -> "int"
            [] v \in {"f10", "f15"} -> "float" [] v = "arr" -> "arr" [] v = "obj" -> "obj" [] OTHER -> "str"
 Kinds == {"string", "int", "float", "bool", "date", "datetime", "uuid", "enums", "enumi", "lits", "liti", "consts", "consti", "any", "none",
-          "file", "list", "model", "uintstr", "udateint"}
+          "file", "list", "model", "uintstr", "udateint", "umodelstr", "umodelint"}
 \* enums/lits: values {"a", "zz"->no}: member = sa;  enumi/liti: members {1, 2} = i1, i2;  consts = "abc" (sabc);  consti = 1 (i1)
 \* uintstr = union [integer, string];  udateint = union [date, integer]
 
@@ -35,6 +35,7 @@ Convert(k, v) ==
                     ELSE IF v = "f10" THEN Val("int", "i1")                                       \* integral float
                     ELSE IF JT(v) = "int" THEN Val("int", v) ELSE Err                           \* bool, 1.5, containers
     [] k = "float" -> IF JT(v) = "str" THEN (IF NumOfStr(v) # "nan" THEN Val("float", NumOfStr(v)) ELSE Err)
+                      ELSE IF v \in {"ibig", "imax"} THEN Val("float", v \o "-rounded")          \* float(value): the nearest double
                       ELSE IF JT(v) \in {"int", "float"} THEN Val("float", v) ELSE Err
     [] k = "bool" -> IF v \in {"strue", "sTRUE"} THEN Val("bool", "true") ELSE IF JT(v) = "bool" THEN Val("bool", v) ELSE Err
     [] k = "date" -> IF v \in {"sdate", "sdt"} THEN Val("date", "sdate") ELSE Err               \* isoparse(...).date()
@@ -52,13 +53,16 @@ Convert(k, v) ==
     [] k = "model" -> Err                                                                          \* "ModelProperty cannot have a default value"
     [] k = "uintstr" -> IF Convert("int", v) # Err THEN Convert("int", v) ELSE Convert("string", v)
     [] k = "udateint" -> IF Convert("date", v) # Err THEN Convert("date", v) ELSE Convert("int", v)
+    \* a model member declared FIRST refuses every default, so the next member decides
+    [] k = "umodelstr" -> IF Convert("model", v) # Err THEN Convert("model", v) ELSE Convert("string", v)
+    [] k = "umodelint" -> IF Convert("model", v) # Err THEN Convert("model", v) ELSE Convert("int", v)
     [] OTHER -> Err
 
 \* ------------------------------------------------------------------ declarative
 WellTyped(k, v) ==
   CASE k = "string" -> JT(v) = "str"
     [] k = "int" -> JT(v) = "int"
-    [] k = "float" -> JT(v) \in {"int", "float"}
+    [] k = "float" -> JT(v) \in {"int", "float"} /\ v \notin {"ibig", "imax"}
     [] k = "bool" -> JT(v) = "bool"
     [] k = "date" -> v = "sdate"
     [] k = "datetime" -> v = "sdt"
@@ -70,13 +74,17 @@ WellTyped(k, v) ==
     [] k = "any" -> v # "null"
     [] k = "uintstr" -> JT(v) \in {"int", "str"}
     [] k = "udateint" -> v = "sdate" \/ JT(v) = "int"
+    [] k = "umodelstr" -> JT(v) = "str"
+    [] k = "umodelint" -> JT(v) = "int"
     [] OTHER -> FALSE
 \* a string spelling of the right value, an integral float for an integer, a date-time for a date and vice versa, any scalar for a string
 Lenient(k, v) ==
   \/ (k = "int" /\ v \in {"s1", "f10"}) \/ (k = "float" /\ v \in {"s1", "s15"}) \/ (k = "bool" /\ v \in {"strue", "sTRUE"})
   \/ (k = "date" /\ v = "sdt") \/ (k = "datetime" /\ v = "sdate") \/ (k = "string" /\ JT(v) \in {"int", "float", "bool"})
+  \/ (k = "float" /\ v \in {"ibig", "imax"})              \* an integer a double cannot hold, declared for `number`: beyond the type the client uses
   \/ (k = "none") \/ (k \in {"list", "model", "file"}) \/ (k = "uintstr" /\ JT(v) \in {"float", "bool"}) \/ (k = "udateint" /\ v \in {"sdt", "s1", "f10"})
   \/ (k = "uintstr" /\ JT(v) \in {"arr", "obj"} /\ FALSE)
+  \/ (k = "umodelstr" /\ JT(v) \in {"int", "float", "bool", "obj"}) \/ (k = "umodelint" /\ (v \in {"s1", "f10"} \/ JT(v) = "obj"))
 IllTyped(k, v) == v # "null" /\ ~WellTyped(k, v) /\ ~Lenient(k, v)
 \* D1: a well-typed default becomes a Python default that encodes to the declared value
 D1(k, v) == WellTyped(k, v) => (Convert(k, v) # Err /\ Convert(k, v) # NoDefault /\ Convert(k, v)[3] = v)
